@@ -82,6 +82,9 @@ type FaultKey struct {
 // MaxEmissionsPerHandle stops a runaway sender (a run can legitimately emit at most 255 probes).
 const MaxEmissionsPerHandle = 600
 
+// MaxReadsPerHandle stops a runaway reader (legitimate floods in the checks stay far below).
+const MaxReadsPerHandle = 400000
+
 // FilterMode selects BPF emulation.
 type FilterMode int
 
@@ -130,6 +133,8 @@ type Handle struct {
 	curFilter                packets.PacketFilterType
 	opCount                  map[string]int
 	FirstReadAt              time.Time
+	// ReadOverrun is set when the code under test called Read more than MaxReadsPerHandle times.
+	ReadOverrun bool
 	// Overrun is set when the code under test wrote more than MaxEmissionsPerHandle packets.
 	Overrun bool
 	// User is free for scenarios (e.g. the flow bound to this handle).
@@ -416,10 +421,22 @@ func (s *simSource) Read(buf []byte) (int, error) {
 	if h.SourceClosed > 0 {
 		h.UseAfterClose = append(h.UseAfterClose, "read")
 	}
+	if h.opCount["read"] > MaxReadsPerHandle {
+		// a run that keeps reading forever (e.g. a retry loop that ignores its deadline): stop it and flag it
+		h.ReadOverrun = true
+		w.mu.Unlock()
+		return 0, errors.New("simnet: read cap exceeded (runaway reader)")
+	}
 	if f, ok := w.fault(h, "read"); ok {
-		h.Calls = append(h.Calls, Call{Op: "read", At: time.Now(), Err: errStr(f.Err)})
+		if len(h.Calls) < 100000 {
+			h.Calls = append(h.Calls, Call{Op: "read", At: time.Now(), Err: errStr(f.Err)})
+		}
 		w.mu.Unlock()
 		if f.ZeroLen {
+			if f.Persist {
+				// a source that keeps returning nothing still lets (virtual) time pass: no zero-time spin
+				time.Sleep(time.Millisecond)
+			}
 			return 0, nil
 		}
 		return 0, f.Err
